@@ -51,6 +51,32 @@ theorem splitNL_clean (s : Str) : ∀ p ∈ splitNL s, '\n' ∉ p := by
           exact ⟨fun e => h e.symm, this⟩
         · exact ih p (by simp [hp])
 
+theorem splitNL_of_clean (s : Str) (h : '\n' ∉ s) : splitNL s = [s] := by
+  induction s with
+  | nil => rfl
+  | cons c cs ih =>
+    simp only [List.mem_cons, not_or] at h
+    have hc : c ≠ '\n' := fun e => h.1 e.symm
+    unfold splitNL
+    simp [hc, ih h.2]
+
+/-- Python: `(a + "\n" + b).split("\n") == a.split("\n") + b.split("\n")` -/
+theorem splitNL_append (a b : Str) : splitNL (a ++ '\n' :: b) = splitNL a ++ splitNL b := by
+  induction a with
+  | nil => simp [splitNL]
+  | cons c cs ih =>
+    by_cases hc : c = '\n'
+    · subst hc
+      simp only [List.cons_append]
+      rw [splitNL, splitNL]
+      simp [ih]
+    · simp only [List.cons_append]
+      rw [splitNL, splitNL]
+      simp only [hc, if_false, ih]
+      cases hs : splitNL cs with
+      | nil => exact absurd hs (splitNL_ne_nil cs)
+      | cons h t => simp
+
 theorem stripCR_clean (p : Str) (h : '\n' ∉ p) : '\n' ∉ stripCR p := by
   unfold stripCR
   split
